@@ -522,13 +522,17 @@ func main() {
 	}
 	run := evid.New("C02", "fault_enumeration")
 	defer sbx.RemoveBase()
-	run.Rule = "Part A: the real transfer queue with the real basic download adapter / custom-transfer adapter (in-process, -race) against a scripted fake LFS server or scripted transfer agent: systematic table of every (.part state x first GET answer class) pair and every agent misbehaviour, plus seeded random scripts of length 1..retries+2 over 19 GET fault classes (status 200/206/416/404/5xx/429, body exact/prefix/cut connection/extra bytes/bit flip/other object/empty, Content-Range correct/wrong start/missing/malformed, ignore Range, reset, redirect) x 10 .part states x pre-existing garbage at the final path x 1-3 objects. Oracle: reported success => SHA-256(final path) == oid; reported failure => final path identical (existence, hash, inode) to before; nothing left outside lfs/incomplete|tmp; every file under lfs/objects hashes to its name. Part C: the real pure-SSH download adapter of the git-lfs binary (git lfs fetch / pull, process level) against a scripted fake ssh peer speaking the git-lfs-transfer pkt-line protocol: every get-object answer class (sizes announced wrong/missing/duplicated/malformed, data short/long/bit-flipped/substituted/empty, status 404/500/206/garbage, missing delimiter, delimiter or empty packet inside the data, close before/inside the data, extra packets after the flush, tiny/maximal packets) and every batch answer class (noop / upload action / omitted / unknown oid / wrong size) once, a sample of (.part state x answer class) pairs, garbage at the final path, seeded random scripts over 1-4 objects of 1 B-200 kB; three ways of installing the ssh program, three URL forms, three sshtransfer settings; class = (.part state, first answer, final pre-state, command, exit). Part D: the built-in standalone file agent (file:// remote, git lfs fetch / pull at process level) with each source object in the remote's store one of {intact, missing, truncated, extended, bit-flipped, another object's bytes, empty, a directory}, optional garbage at the final path; same oracle at process level. Part B: two race-instrumented git-lfs processes fetching the same objects with an observer; porcupine write-once-register check. Class = (adapter, .part state, first answer, final pre-state, retries)."
+	run.Rule = "Part A: the real transfer queue with the real basic download adapter / custom-transfer adapter (in-process, -race) against a scripted fake LFS server or scripted transfer agent: systematic table of every (.part state x first GET answer class) pair and every agent misbehaviour, plus seeded random scripts of length 1..retries+2 over 19 GET fault classes (status 200/206/416/404/5xx/429, body exact/prefix/cut connection/extra bytes/bit flip/other object/empty, Content-Range correct/wrong start/missing/malformed, ignore Range, reset, redirect) x 10 .part states x pre-existing garbage at the final path x 1-3 objects. Oracle: reported success => SHA-256(final path) == oid; reported failure => final path identical (existence, hash, inode) to before; nothing left outside lfs/incomplete|tmp; every file under lfs/objects hashes to its name. Part C: the real pure-SSH download adapter of the git-lfs binary (git lfs fetch / pull, process level) against a scripted fake ssh peer speaking the git-lfs-transfer pkt-line protocol: every get-object answer class (sizes announced wrong/missing/duplicated/malformed, data short/long/bit-flipped/substituted/empty, status 404/500/206/garbage, missing delimiter, delimiter or empty packet inside the data, close before/inside the data, extra packets after the flush, tiny/maximal packets) and every batch answer class (noop / upload action / omitted / unknown oid / wrong size) once, a sample of (.part state x answer class) pairs, garbage at the final path, seeded random scripts over 1-4 objects of 1 B-200 kB; three ways of installing the ssh program, three URL forms, three sshtransfer settings; class = (.part state, first answer, final pre-state, command, exit). Part D: the built-in standalone file agent (file:// remote, git lfs fetch / pull at process level) with each source object in the remote's store one of {intact, missing, truncated, extended, bit-flipped, another object's bytes, empty, a directory}, optional garbage at the final path; same oracle at process level. Part E: the local object store on another filesystem than the temporary area (.git/lfs/objects a symbolic link into /dev/shm), git lfs fetch at process level with and without an injected write error (ENOSPC/EIO at the 1st-3rd write) on the object's final path; same oracle. Part B: two race-instrumented git-lfs processes fetching the same objects with an observer; porcupine write-once-register check. Class = (adapter, .part state, first answer, final pre-state, retries)."
 	run.Assumptions = []string{"success = the object is delivered on the queue's Watch channel; failure = it is not and an error is reported", "back-off sleeps scaled by 0.01 through the verif hook", "Part C (pure SSH adapter) is judged at process level: a command that exits 0 reports every object of the tree successful; a command that exits non-zero reports nothing per object, so each object must be either untouched or valid; in addition the adapter's own success report is read from the verif-tagged hook event adapter.attempt.ok (VERIF_TRACE)", "the fake ssh ignores host, port and all ssh options and refuses git-lfs-authenticate; pure SSH is selected by lfs.<url>.sshtransfer=always, lfs.sshtransfer=always or the default negotiate order", "the ssh adapter never resumes from lfs/incomplete/<oid>.part (it downloads into a fresh temp file); the .part states are still planted to show they have no influence"}
 	sys := systematicCases()
 	total := len(sys) + run.N(160, 3000)
 	if run.Quick() {
 		// quick: a third of the systematic table (rotating with the seed) + random scripts
 		total = len(sys) + 160
+	}
+	if os.Getenv("VERIF_C02_PART") == "E" { // development aid: Part E alone (never set by ./check)
+		crossFsPart(run)
+		run.Finish()
 	}
 	if os.Getenv("VERIF_C02_PART") == "D" { // development aid: Part D alone (never set by ./check)
 		standalonePart(run)
@@ -575,6 +579,7 @@ func main() {
 	}
 	sshPart(run)
 	standalonePart(run)
+	crossFsPart(run)
 	twoProcess(run)
 	run.Finish()
 }
